@@ -163,6 +163,9 @@ func (a *Unary) eval(val Value) Value {
 		return OpNot(val)
 	case tok.BitNot:
 		return OpBitNot(val)
+	case tok.Div:
+		// 1 / x, see Folder.foldMul
+		return OpDiv(One, val)
 	case tok.LParen:
 		return val
 	}
